@@ -10,6 +10,10 @@ the kind -> impose_* dispatch covers every Collapse* factory; impose_at stores
 the target itself and impose_as the tracked value (+offset); masks only grow.
 Round 3: impose_measure applies position collapses before weight collapses
 (reference shared with C19.g).
+Round 4: collapses are handed on only behind the test that every part of the
+stop message is a Collapse* condition; a list of CollapseAt targets is indexed
+per parameter (repair 4efaa35); impose_at pairs targets with in-range indices
+(repair b488457).
 NOT decided: detectors' numeric results, that the solve terminates, measure
 collapses' numeric effects (C18).
 """
